@@ -1,7 +1,7 @@
 /-
 C06 helper lemmas: termination and the amortised linear bound of the `process_emphasis` model `emLoop`.
 
-Potential: for each of the 17 `openers_bottom` classes the number of delimiters at or above the class's
+Potential: for each of the 42 `openers_bottom` classes the number of delimiters at or above the class's
 bottom, plus the number of delimiters, plus the characters they still have, plus the delimiters still to
 be visited as closers. A failed search for class `i` walks over (at most) the delimiters of `left` that are
 counted for `i` and then raises the bottom to the closer: they are never counted for `i` again. A successful
@@ -86,7 +86,7 @@ theorem potA_zero (ds : List Delim) : ∀ K, potA (fun _ => 0) [] ds K = K * ds.
     have h := cntGe_eq_length 0 ds (fun _ _ => Nat.zero_le _)
     simp only [potA, potA_zero ds K, cntGe, h, Nat.add_mul]; omega
 
-theorem bottomIx_lt (fix : Bool) (c : Delim) : bottomIx fix c < 17 := by
+theorem bottomIx_lt (fix : Bool) (c : Delim) : bottomIx fix c < 42 := by
   unfold bottomIx bottomIxNew bottomIxOld
   have : c.len % 3 < 3 := Nat.mod_lt _ (by omega)
   repeat' split
@@ -213,9 +213,11 @@ theorem emLoop_terminates (fix : Bool) : ∀ (fuel : Nat) (bot : Nat → Nat) (l
       split
       · split
         · rename_i o below _
-          have hp := shrink_pay c (useChars o c) above (useChars_pos o c)
-          obtain ⟨k, hk⟩ := ih bot (shrink o (useChars o c) below) (shrink c (useChars o c) above) (by omega)
-          exact ⟨_, by rw [hk]; rfl⟩
+          split
+          · exact ⟨_, rfl⟩
+          · have hp := shrink_pay c (useChars o c) above (useChars_pos o c)
+            obtain ⟨k, hk⟩ := ih bot (shrink o (useChars o c) below) (shrink c (useChars o c) above) (by omega)
+            exact ⟨_, by rw [hk]; rfl⟩
         · obtain ⟨k, hk⟩ := ih
             (if (alwaysRaise fix c || !(emSearch c (bot (bottomIx fix c)) left).mod3) = true then fun k => if k = bottomIx fix c then c.pos else bot k else bot)
             (if c.canOpen = true then c :: left else left) above (by omega)
@@ -233,21 +235,21 @@ structure EmInv (P : Delim → Prop) (bot : Nat → Nat) (left right : List Deli
   pr : ∀ d ∈ right, P d
 
 def emPot (bot : Nat → Nat) (left right : List Delim) : Nat :=
-  potA bot left right 17 + (left.length + right.length) + (sumCur left + sumCur right) + right.length
+  potA bot left right 42 + (left.length + right.length) + (sumCur left + sumCur right) + right.length
 
 /-- The closer moves up after a failed search for class `i` whose bottom is raised to the closer: the
     delimiters of `left` counted for `i` leave the potential. -/
-theorem potA_failed (bot : Nat → Nat) (left above : List Delim) (c : Delim) (i : Nat) (hi : i < 17)
+theorem potA_failed (bot : Nat → Nat) (left above : List Delim) (c : Delim) (i : Nat) (hi : i < 42)
     (hlt : ∀ d ∈ left, d.pos < c.pos) (hab : ∀ e ∈ above, c.pos < e.pos) (hbc : bot i ≤ c.pos)
     (left' : List Delim) (hl : left' = c :: left ∨ left' = left) :
-    potA (fun k => if k = i then c.pos else bot k) left' above 17 + cntGe (bot i) left
-      ≤ potA bot left (c :: above) 17 := by
-  have hu := potA_update bot left' above i c.pos 17 hi
+    potA (fun k => if k = i then c.pos else bot k) left' above 42 + cntGe (bot i) left
+      ≤ potA bot left (c :: above) 42 := by
+  have hu := potA_update bot left' above i c.pos 42 hi
   have h1 : cntGe c.pos above = above.length := cntGe_eq_length _ _ (fun e he => Nat.le_of_lt (hab e he))
   have h2 : cntGe (bot i) above = above.length :=
     cntGe_eq_length _ _ (fun e he => Nat.le_trans hbc (Nat.le_of_lt (hab e he)))
   have h3 : cntGe c.pos left = 0 := cntGe_eq_zero _ _ hlt
-  have hm : potA bot left' above 17 ≤ potA bot left (c :: above) 17 := by
+  have hm : potA bot left' above 42 ≤ potA bot left (c :: above) 42 := by
     apply potA_mono
     intro b
     rcases hl with rfl | rfl <;> simp only [cntGe] <;> omega
@@ -304,6 +306,14 @@ theorem emLoop_bound (P : Delim → Prop) (hP : ∀ d n, P d → P { d with cur 
         · -- opener found
           rename_i o below hhit
           obtain ⟨sk, hleft, hcost⟩ := emSearch_hit c _ left o below hhit
+          split
+          · -- the `~` exit of insert_emph: the loop ends here
+            refine ⟨_, rfl, ?_⟩
+            rw [hcost]
+            simp only [emPot]
+            rw [hleft, List.length_append]
+            simp only [List.length_cons]
+            omega
           have hu := useChars_pos o c
           have hpc := shrink_pay c (useChars o c) above hu
           have hpo := shrink_pay o (useChars o c) below hu
@@ -322,8 +332,8 @@ theorem emLoop_bound (P : Delim → Prop) (hP : ∀ d n, P d → P { d with cur 
             · exact shrink_P P hP c _ above hI.pr
           obtain ⟨k, hk, hkb⟩ := ih bot _ _ hI' (by omega)
           refine ⟨1 + (emSearch c (bot (bottomIx fix c)) left).cost + k, by rw [hk]; rfl, ?_⟩
-          have hm : potA bot (shrink o (useChars o c) below) (shrink c (useChars o c) above) 17
-              ≤ potA bot left (c :: above) 17 := by
+          have hm : potA bot (shrink o (useChars o c) below) (shrink c (useChars o c) above) 42
+              ≤ potA bot left (c :: above) 42 := by
             apply potA_mono
             intro b
             have h1 := shrink_cnt b o (useChars o c) below
@@ -369,7 +379,7 @@ theorem emLoop_bound (P : Delim → Prop) (hP : ∀ d n, P d → P { d with cur 
         have hI' := hmove bot (c :: left) (Or.inl rfl) (fun i e he => hI.botle i e (by simp [he]))
         obtain ⟨k, hk, hkb⟩ := ih bot (c :: left) above hI' (by omega)
         refine ⟨1 + k, by rw [hk]; rfl, ?_⟩
-        have hm : potA bot (c :: left) above 17 ≤ potA bot left (c :: above) 17 := by
+        have hm : potA bot (c :: left) above 42 ≤ potA bot left (c :: above) 42 := by
           apply potA_mono; intro b; simp only [cntGe]; omega
         simp only [emPot] at hkb ⊢
         simp only [List.length_cons, sumCur] at hkb ⊢
